@@ -10,9 +10,10 @@ package nebula
 //
 // Unit "conc" (component level, -race): many goroutines against ONE real, fully wired but not started node (real
 // HandshakeManager, HostMap, relayManager, LightHouse, PKI from nebula.Main): puppet peers initiate genuine IX handshakes
-// (HandleIncoming -> beginHandshake -> generateIndex -> CheckAndComplete), the node initiates (StartHandshake / Handshake,
-// a Run-like goroutine drives handleOutbound -> buildStage0Packet -> allocateIndex -> StartRelays -> AddRelay with an
-// explicit clock, puppets answer or stay silent so handshakes complete or time out), tunnels are closed (closeTunnel,
+// (HandleIncoming -> beginHandshake -> generateIndex -> CheckAndComplete), the node initiates (StartHandshake / Handshake;
+// the node's own HandshakeManager.Run goroutine, which nebula.Main starts, drives handleOutbound -> buildStage0Packet ->
+// allocateIndex -> StartRelays -> AddRelay on the virtual clock of a synctest bubble; puppets answer, answer late or stay
+// silent so handshakes complete or time out), tunnels are closed (closeTunnel,
 // DeleteHostInfo, handleRecvError, repeated deletes of stale pointers), relay indexes are allocated (AddRelay, the real
 // CreateRelayRequest handler as relay target and as forwarding relay). The hs.* yield hooks yield at random.
 //
@@ -696,12 +697,15 @@ func TestVerifC29Conc(t *testing.T) {
 	r := verifkit.NewReporter(t, "C29", "conc",
 		"histories = (index-space size 3..16 with zero draws, operation mix, puppet count) x G goroutines x N operations against one real wired node (not started): puppet-initiated and node-initiated genuine IX handshakes, completions, timeouts (explicit clock), closes, recv_errors, stale deletes, AddRelay / CreateRelayRequest handling, serialized checked deletes; one evaluation per operation; distinct = distinct (index-space size, pending set, established set, relay set) snapshots; classes = (index-space size, zero rate, mix)")
 	defer r.Done()
-	histories := verifkit.Scale(16, 480)
+	histories := verifkit.Scale(16, 160)
 	for hi := 0; hi < histories; hi++ {
 		if !verifkit.Mine(hi) {
 			continue
 		}
-		c29RunConc(t, r, hi)
+		// one bubble per history: the node's own handshake manager goroutine (started by nebula.Main) runs on the virtual clock
+		t.Run(fmt.Sprintf("h%d", hi), func(t *testing.T) {
+			synctest.Test(t, func(t *testing.T) { c29RunConc(t, r, hi) })
+		})
 	}
 	if r.Counter("allocate_index_retries_on_index_in_use") == 0 || r.Counter("check_and_complete_local_index_collisions") == 0 {
 		r.Inconclusive("no local index collision was observed")
@@ -715,7 +719,7 @@ func c29RunConc(t *testing.T, r *verifkit.Reporter, hi int) {
 	mix := []string{"handshake-heavy", "relay-client", "relay-server"}[(hi/7+hi)%3]
 	nPup := 6 + rng.IntN(7)
 	G := []int{6, 10, 16}[rng.IntN(3)]
-	opsPer := verifkit.Scale(260, 900)
+	opsPer := verifkit.Scale(200, 600)
 	label := fmt.Sprintf("conc history %d", hi)
 	info := map[string]any{"index_space": K, "zero_one_in": zeroIn, "mix": mix, "puppets": nPup, "goroutines": G, "ops_per_goroutine": opsPer}
 	r.Pre("C29 %s %v", label, info)
@@ -730,7 +734,7 @@ func c29RunConc(t *testing.T, r *verifkit.Reporter, hi int) {
 		static[pups[i].vpn.String()] = []string{pups[i].addr.String()}
 		byAddr[pups[i].addr] = pups[i]
 	}
-	over := m{"lighthouse": m{"am_lighthouse": true}, "static_host_map": static}
+	over := m{"lighthouse": m{"am_lighthouse": true}, "static_host_map": static, "handshakes": m{"try_interval": "3ms"}}
 	switch mix {
 	case "relay-server":
 		over["relay"] = m{"am_relay": true}
@@ -860,6 +864,9 @@ func c29RunConc(t *testing.T, r *verifkit.Reporter, hi int) {
 					if prng.IntN(8) == 0 {
 						n = 2 // duplicated reply
 					}
+					if prng.IntN(5) == 0 {
+						time.Sleep(time.Duration(1+prng.IntN(40)) * time.Millisecond) // late reply: races the retries and the time-out
+					}
 					for ; n > 0; n-- {
 						world.RLock()
 						hsm.HandleIncoming(ViaSender{UdpAddr: p.addr}, resp, &h)
@@ -885,47 +892,6 @@ func c29RunConc(t *testing.T, r *verifkit.Reporter, hi int) {
 			}
 		}(w)
 	}
-
-	// Run-like goroutine: the only caller of handleOutbound, with an explicit clock paced by the operation count
-	runStop := make(chan struct{})
-	var runWg sync.WaitGroup
-	var ticks atomic.Int64
-	now := time.Now()
-	runStep := func(tick bool) {
-		world.RLock()
-		for i := 0; i < 8; i++ {
-			select {
-			case a := <-hsm.trigger:
-				hsm.handleOutbound(a, true)
-			default:
-				i = 8
-			}
-		}
-		if tick {
-			now = now.Add(hsm.config.tryInterval)
-			hsm.NextOutboundHandshakeTimerTick(now)
-			ticks.Add(1)
-		}
-		world.RUnlock()
-	}
-	runWg.Add(1)
-	go func() {
-		defer runWg.Done()
-		last := int64(0)
-		for {
-			select {
-			case <-runStop:
-				return
-			default:
-			}
-			oc := opCount.Load()
-			runStep(oc-last >= 3)
-			if oc-last >= 3 {
-				last = oc
-			}
-			runtime.Gosched()
-		}
-	}()
 
 	// workers
 	var wg sync.WaitGroup
@@ -960,6 +926,11 @@ func c29RunConc(t *testing.T, r *verifkit.Reporter, hi int) {
 				}
 			}
 			for i := 0; i < opsPer; i++ {
+				if i%4 == 0 {
+					// all workers sleep on the same millisecond grid of the virtual clock: the ones that wake at the same
+					// instant run their bursts truly concurrently, and the node's own handshake timer gets to tick
+					time.Sleep(time.Duration(2+wr.IntN(4)) * time.Millisecond)
+				}
 				opCount.Add(1)
 				r.Eval(1)
 				switch x := wr.IntN(100); {
@@ -1053,7 +1024,10 @@ func c29RunConc(t *testing.T, r *verifkit.Reporter, hi int) {
 					world.RLock()
 					mo.check("between operations", K)
 					world.RUnlock()
-				default: // serialized checked delete: nothing else runs between the two snapshots
+				default:
+					// serialized checked delete: no other harness operation runs between the two snapshots. The node's own
+					// handshake manager goroutine may: it only adds pending / relay entries or removes a pending entry
+					// together with its owner, and never touches Indexes or RemoteIndexes, so the diff stays exact.
 					world.Lock()
 					h := c29PickLive(f, wr, true)
 					if len(stale) > 0 && wr.IntN(3) == 0 {
@@ -1074,25 +1048,15 @@ func c29RunConc(t *testing.T, r *verifkit.Reporter, hi int) {
 	}
 	wg.Wait()
 
-	// quiescent point 1: workers are done; let in-flight replies land, then every remaining pending handshake times out
+	// quiescent point 1: workers are done and every goroutine of the node and the harness is durably blocked
+	synctest.Wait()
+	mo.check("quiescent after workload", K)
+	// then the puppets go silent and every remaining pending handshake times out
 	silent.Store(true)
-	for len(work) > 0 {
-		runtime.Gosched()
-	}
-	close(runStop)
-	runWg.Wait()
+	time.Sleep(hsTimeout(hsm.config.retries, hsm.config.tryInterval) + 20*hsm.config.tryInterval)
+	synctest.Wait()
 	close(poolStop)
 	poolWg.Wait()
-	mo.check("quiescent after workload", K)
-	for i := 0; i < 240; i++ {
-		runStep(true)
-		hsm.RLock()
-		n := len(hsm.vpnIps)
-		hsm.RUnlock()
-		if n == 0 {
-			break
-		}
-	}
 	fin := mo.check("quiescent after time-outs", K)
 	if len(fin.pendLive) != 0 {
 		r.Count("pending_left_after_timeouts", len(fin.pendLive))
@@ -1109,11 +1073,12 @@ func c29RunConc(t *testing.T, r *verifkit.Reporter, hi int) {
 		post := mo.check("teardown", K)
 		mo.diffDelete(pre, post, op, h)
 	}
+	node.C.Stop()
+	synctest.Wait() // the node's goroutines are gone
 	close(pumpStop)
 	pumpWg.Wait()
 	verifHook.Store(nil)
 	restore()
-	node.C.Stop()
 
 	c29Evidence(r, cr, lg, &hookHits)
 	r.Count("puppet_initiated_handshakes", int(nPupInit.Load()))
@@ -1126,7 +1091,6 @@ func c29RunConc(t *testing.T, r *verifkit.Reporter, hi int) {
 	r.Count("add_relay_ok", int(nRelayOK.Load()))
 	r.Count("add_relay_refused", int(nRelayErr.Load()))
 	r.Count("snapshots_checked", int(mo.checks.Load()))
-	r.Count("clock_ticks", int(ticks.Load()))
 	r.Count("histories", 1)
 	var dv int
 	cr.distinct.Range(func(_, _ any) bool { dv++; return true })
@@ -1159,7 +1123,7 @@ func TestVerifC29Node(t *testing.T) {
 	r := verifkit.NewReporter(t, "C29", "node",
 		"runs = (index-space size, puppet count, relay role) x S virtual seconds of one started node whose index space is tiny, with puppet goroutines handshaking in both directions, closing tunnels, sending recv_errors and relay requests or going silent, while the node's own handshake retry and connection manager timers run; one evaluation per puppet action; distinct = distinct (index-space size, pending set, established set, relay set) snapshots")
 	defer r.Done()
-	runs := verifkit.Scale(4, 96)
+	runs := verifkit.Scale(8, 96)
 	for ri := 0; ri < runs; ri++ {
 		if !verifkit.Mine(ri) {
 			continue
@@ -1452,4 +1416,424 @@ func c29RunNode(t *testing.T, r *verifkit.Reporter, ri int) {
 	r.Sample(map[string]any{"run": ri, "params": info, "snapshots": mo.checks.Load(), "tunnels_completed_by_puppets": established.Load(),
 		"allocate_retries": cr.inUse[c29CallerAlloc].Load(), "relay_retries": cr.inUse[c29CallerRelay].Load(),
 		"collision_errors": lg.get("Failed to add HostInfo due to localIndex collision"), "timeouts": lg.get("Handshake timed out")})
+}
+
+// ---------------------------------------------------------------------------------------------------------------------
+// unit script: directed schedules through the real entry points (deterministic; the same snapshot oracles)
+
+type c29Script struct {
+	r       *verifkit.Reporter
+	name    string
+	node    *vnNode
+	f       *Interface
+	hsm     *HandshakeManager
+	lg      *c29Log
+	cr      *c29Rand
+	mo      *c29Mon
+	pups    []*c29Puppet
+	restore func()
+	K       int
+}
+
+// c29NewScript builds a wired, not started node. Puppets with number < learned are only known through a learned
+// lighthouse entry (closing their last tunnel clears lighthouse state), the rest are static hosts.
+func c29NewScript(t *testing.T, r *verifkit.Reporter, name string, vals []uint32, zeroIn uint64, nPup, learned int, amRelay bool) *c29Script {
+	s := &c29Script{r: r, name: name, K: len(vals)}
+	ca := vnNewCA(cert.Version2, cert.Curve_CURVE25519)
+	static := m{}
+	for i := 0; i < nPup; i++ {
+		p := c29NewPuppet(ca, i)
+		s.pups = append(s.pups, p)
+		if i >= learned {
+			static[p.vpn.String()] = []string{p.addr.String()}
+		}
+	}
+	over := m{"lighthouse": m{"am_lighthouse": true}, "relay": m{"am_relay": amRelay}}
+	if len(static) > 0 {
+		over["static_host_map"] = static
+	}
+	s.lg = c29NewLog()
+	nw := vnNewNet(t)
+	s.node = c29AddNode(nw, ca.issue([]cert.Version{cert.Version2}, "n", "10.29.0.1/16", "", nil), []*vnCA{ca}, "192.0.2.1:4242", over, slog.New(s.lg))
+	s.f = s.node.F
+	s.hsm = s.f.handshakeManager
+	for i := 0; i < learned; i++ {
+		s.node.C.InjectLightHouseAddr(s.pups[i].vpn, s.pups[i].addr)
+	}
+	s.cr = &c29Rand{vals: vals, zeroIn: zeroIn, seed: verifkit.Seed()}
+	s.cr.f.Store(s.f)
+	s.restore = c29Install(s.cr)
+	s.mo = c29NewMon(r, s.f, "script "+name, map[string]any{"index_values": vals, "zero_one_in": zeroIn})
+	return s
+}
+
+func (s *c29Script) done() {
+	s.drain()
+	s.node.C.Stop()
+	synctest.Wait() // the node's goroutines are gone
+	s.restore()
+}
+
+// drain returns the handshake packets the node wrote since the last call.
+func (s *c29Script) drain() []c29Work {
+	var out []c29Work
+	for {
+		p := s.node.udp().Get(false)
+		if p == nil {
+			return out
+		}
+		var w c29Work
+		if err := w.h.Parse(p.Data); err == nil && w.h.Type == header.Handshake {
+			w.data = append([]byte(nil), p.Data...)
+			w.to = p.To
+			out = append(out, w)
+		}
+		p.Release()
+	}
+}
+
+func (s *c29Script) check(where string) *c29Snap { return s.mo.check(where, s.K) }
+
+// pupInit: the puppet starts a genuine handshake; returns the node-side tunnel if the node accepted and the index the
+// node's reply carried.
+func (s *c29Script) pupInit(p *c29Puppet, pidx uint32) (*HostInfo, uint32) {
+	mach := p.machine(true, pidx)
+	msg, err := mach.Initiate(nil)
+	if err != nil {
+		panic(err)
+	}
+	var h header.H
+	if err := h.Parse(msg); err != nil {
+		panic(err)
+	}
+	before := s.f.hostMap.QueryVpnAddr(p.vpn)
+	s.hsm.HandleIncoming(ViaSender{UdpAddr: p.addr}, msg, &h)
+	var nodeIdx uint32
+	for _, w := range s.drain() {
+		if w.to == p.addr && w.h.MessageCounter == 2 {
+			if _, res, err := mach.ProcessPacket(nil, w.data); err == nil && res != nil {
+				nodeIdx = res.RemoteIndex
+				if nodeIdx == 0 {
+					s.r.Violation("C29/zero-index-handed-out", "script "+s.name+": the node's handshake reply carries responder index 0", nil)
+				}
+			}
+		}
+	}
+	after := s.f.hostMap.QueryVpnAddr(p.vpn)
+	if after == before {
+		return nil, 0
+	}
+	return after, nodeIdx
+}
+
+// pupInitRetry repeats pupInit until the node's responder index draw did not collide (bounded).
+func (s *c29Script) pupInitRetry(p *c29Puppet, pidx uint32) *HostInfo {
+	for i := 0; i < 200; i++ {
+		if h, _ := s.pupInit(p, pidx); h != nil {
+			return h
+		}
+	}
+	return nil
+}
+
+// nodeInit: the node starts a handshake towards the puppet and one attempt is sent; returns the first message, if any.
+func (s *c29Script) nodeInit(p *c29Puppet) *c29Work {
+	s.hsm.StartHandshake(p.vpn, nil)
+	s.hsm.handleOutbound(p.vpn, false)
+	for _, w := range s.drain() {
+		if w.to == p.addr && w.h.MessageCounter == 1 {
+			return &w
+		}
+	}
+	return nil
+}
+
+// pupAnswer: the puppet answers the node's first message; returns the established tunnel, if the node completed.
+func (s *c29Script) pupAnswer(p *c29Puppet, w *c29Work, pidx uint32) *HostInfo {
+	mach := p.machine(false, pidx)
+	resp, res, err := mach.ProcessPacket(nil, w.data)
+	if err != nil || res == nil {
+		return nil
+	}
+	if res.RemoteIndex == 0 {
+		s.r.Violation("C29/zero-index-handed-out", "script "+s.name+": the node's first handshake message carries initiator index 0", nil)
+	}
+	var h header.H
+	if err := h.Parse(resp); err != nil {
+		panic(err)
+	}
+	s.hsm.HandleIncoming(ViaSender{UdpAddr: p.addr}, resp, &h)
+	s.drain()
+	hi := s.f.hostMap.QueryVpnAddr(p.vpn)
+	if hi == nil || hi.remoteIndexId != pidx {
+		return nil
+	}
+	return hi
+}
+
+func (s *c29Script) pendingIndexOf(p *c29Puppet) uint32 {
+	s.hsm.RLock()
+	defer s.hsm.RUnlock()
+	if hh := s.hsm.vpnIps[p.vpn]; hh != nil {
+		return hh.hostinfo.localIndexId
+	}
+	return 0
+}
+
+func c29Spin(cond func() bool) bool {
+	for i := 0; i < 50_000_000; i++ {
+		if cond() {
+			return true
+		}
+		runtime.Gosched()
+	}
+	return false
+}
+
+func TestVerifC29Script(t *testing.T) {
+	if i, _ := verifkit.Shard(); i != 0 {
+		return
+	}
+	r := verifkit.NewReporter(t, "C29", "script",
+		"directed schedules through the real entry points with an index space of one or two values: recv_error teardown racing an index allocation (the teardown is parked on the lighthouse lock between its two steps), allocation against an index held by an established tunnel / a pending handshake, responder completion against a pending index, relay index exhaustion and re-use after removal, deletes of tunnels sharing a remote index, repeated deletes after index re-use; one evaluation per scenario step; distinct = scenario variants")
+	defer r.Done()
+	// in a bubble: the node's own handshake manager goroutine only moves when this goroutine sleeps, which it never does
+	synctest.Test(t, func(t *testing.T) { c29Scripts(t, r) })
+}
+
+func c29Scripts(t *testing.T, r *verifkit.Reporter) {
+	kvals := []uint32{1, 7, 0x80000000, 0xffffffff}
+	ev := func(class string) { r.Eval(1); r.DistinctClass(class) }
+
+	// S1: a recv_error tears down established tunnel G (index k); between its two steps (main hostmap removal, then the
+	// pending-table cleanup) the handshake manager hands the now free k to pending handshake P. P must keep k.
+	for vi, k := range kvals {
+		for _, viaInitiator := range []bool{false, true} {
+			name := fmt.Sprintf("S1 recv_error-races-allocation k=%#x established-as-initiator=%v", k, viaInitiator)
+			s := c29NewScript(t, r, name, []uint32{k}, []uint64{0, 2}[vi%2], 2, 2, false)
+			pa, pb := s.pups[0], s.pups[1]
+			var g *HostInfo
+			if viaInitiator {
+				if w := s.nodeInit(pa); w != nil {
+					g = s.pupAnswer(pa, w, 5)
+				}
+			} else {
+				g, _ = s.pupInit(pa, 5)
+			}
+			if g == nil || g.localIndexId != k {
+				r.Inconclusive(name + ": could not establish the first tunnel")
+				s.done()
+				continue
+			}
+			s.check(name + ": tunnel G established")
+			s.hsm.StartHandshake(pb.vpn, nil)
+			for len(s.hsm.trigger) > 0 {
+				<-s.hsm.trigger
+			}
+			s.f.lightHouse.Lock() // parks closeTunnel's lighthouse cleanup, i.e. the recv_error handler between its two steps
+			var wg sync.WaitGroup
+			wg.Add(1)
+			go func() {
+				defer wg.Done()
+				hdr := header.H{Version: header.Version, Type: header.RecvError, RemoteIndex: g.remoteIndexId}
+				s.f.handleRecvError(pa.addr, &hdr)
+			}()
+			okA := c29Spin(func() bool { return s.f.hostMap.QueryIndex(k) == nil })
+			wg.Add(1)
+			go func() {
+				defer wg.Done()
+				s.hsm.handleOutbound(pb.vpn, false) // allocates k, then parks on the lighthouse lock as well
+			}()
+			okB := okA && c29Spin(func() bool { return s.hsm.QueryIndex(k) != nil })
+			s.f.lightHouse.Unlock()
+			wg.Wait()
+			if !okA || !okB {
+				r.Inconclusive(name + ": the schedule could not be forced")
+				s.done()
+				continue
+			}
+			r.Count("forced_recv_error_allocation_races", 1)
+			snap := s.check(name + ": after the recv_error teardown finished")
+			if got := s.pendingIndexOf(pb); got != k {
+				r.Inconclusive(fmt.Sprintf("%s: pending handshake carries %d", name, got))
+			}
+			_ = snap
+			// the peer of P now answers: a handshake that still owns its index completes
+			for _, w := range s.drain() {
+				if w.to == pb.addr && w.h.MessageCounter == 1 {
+					if s.pupAnswer(pb, &w, 6) != nil {
+						r.Count("handshake_completed_after_forced_race", 1)
+					}
+					break
+				}
+			}
+			s.check(name + ": after the peer answered")
+			ev(name)
+			s.done()
+		}
+	}
+
+	// S2: the only free index is held by an established tunnel / by a pending handshake.
+	for _, k := range kvals {
+		name := fmt.Sprintf("S2 allocation-against-held-index k=%#x", k)
+		s := c29NewScript(t, r, name, []uint32{k}, 3, 3, 3, false)
+		pa, pb, pc := s.pups[0], s.pups[1], s.pups[2]
+		g, widx := s.pupInit(pa, 5)
+		if g == nil || widx != k {
+			r.Inconclusive(name + ": could not establish the first tunnel")
+			s.done()
+			continue
+		}
+		// node-initiated handshake: allocateIndex must refuse (the space is exhausted), never hand out k
+		if w := s.nodeInit(pb); w != nil {
+			r.Violation("C29/index-held-by-pending-and-established", "script "+name+": the node sent a first handshake message although its only index is held by an established tunnel", nil)
+		}
+		s.check(name + ": allocation while an established tunnel holds the only index")
+		ev(name + " established-holds")
+		// responder completion for another peer: CheckAndComplete must refuse
+		if h2, _ := s.pupInit(pc, 6); h2 != nil {
+			s.check(name + ": second responder tunnel accepted")
+		}
+		s.check(name + ": responder completion while an established tunnel holds the only index")
+		ev(name + " responder-vs-established")
+		s.f.closeTunnel(g)
+		s.check(name + ": after closing G")
+		// now the pending handshake gets k ...
+		s.hsm.handleOutbound(pb.vpn, false)
+		w := s.drain()
+		if s.pendingIndexOf(pb) != k {
+			r.Inconclusive(name + ": pending handshake did not get the freed index")
+			s.done()
+			continue
+		}
+		// ... and a responder completion that draws k must be refused while it is pending
+		before := s.lg.get("Failed to add HostInfo due to localIndex collision")
+		if h3, _ := s.pupInit(pc, 6); h3 != nil {
+			s.check(name + ": responder tunnel accepted while the index is pending")
+		}
+		if s.lg.get("Failed to add HostInfo due to localIndex collision") > before {
+			r.Count("responder_refused_on_pending_index", 1)
+		}
+		s.check(name + ": responder completion while a pending handshake holds the only index")
+		ev(name + " responder-vs-pending")
+		// the pending handshake completes and keeps k
+		for i := range w {
+			if w[i].to == pb.addr && w[i].h.MessageCounter == 1 {
+				if hi := s.pupAnswer(pb, &w[i], 7); hi != nil && hi.localIndexId == k {
+					r.Count("pending_completed_with_its_index", 1)
+				}
+				break
+			}
+		}
+		s.check(name + ": after completion")
+		ev(name + " completion")
+		s.done()
+	}
+
+	// S3: relay indexes: exhaustion never steals, removal of the owner frees.
+	for _, k := range kvals {
+		for _, amRelay := range []bool{false, true} {
+			name := fmt.Sprintf("S3 relay-index k=%#x am_relay=%v", k, amRelay)
+			s := c29NewScript(t, r, name, []uint32{k, k ^ 0x10}, 4, 3, 3, amRelay)
+			pa, pb, pc := s.pups[0], s.pups[1], s.pups[2]
+			ha := s.pupInitRetry(pa, 5)
+			hb := s.pupInitRetry(pb, 5)
+			if ha == nil || hb == nil {
+				r.Inconclusive(name + ": could not establish two tunnels")
+				s.done()
+				continue
+			}
+			// tunnel indexes and relay indexes are separate tables: both relay indexes are still free
+			i1, e1 := AddRelay(s.f.l, ha, s.f.hostMap, pc.vpn, nil, TerminalType, Requested)
+			s.f.relayManager.HandleControlMsg(hb, c29Control(pb.vpn, s.node.Ident.Addr(), 9), s.f) // real handler: relay target is me
+			s.drain()
+			if e1 == nil {
+				s.mo.logRelay(ha, i1)
+				if i1 == 0 {
+					r.Violation("C29/zero-index-handed-out", "script "+name+": AddRelay returned relay index 0", nil)
+				}
+			}
+			s.check(name + ": two relay indexes in use")
+			// a third allocation finds no free index: it must fail, not take one over
+			i3, e3 := AddRelay(s.f.l, hb, s.f.hostMap, pc.vpn, nil, TerminalType, Requested)
+			if e3 == nil {
+				s.mo.logRelay(hb, i3)
+				r.Count("relay_allocation_succeeded_in_full_space", 1)
+			} else {
+				r.Count("relay_allocation_refused_in_full_space", 1)
+			}
+			s.check(name + ": allocation in a full relay index space")
+			ev(name + " full")
+			pre := s.mo.collect()
+			s.f.closeTunnel(ha)
+			post := s.check(name + ": relay owner closed")
+			s.mo.diffDelete(pre, post, "closeTunnel", ha)
+			if i4, e4 := AddRelay(s.f.l, hb, s.f.hostMap, pc.vpn, nil, TerminalType, Requested); e4 == nil {
+				s.mo.logRelay(hb, i4)
+				r.Count("relay_index_reused_after_owner_removed", 1)
+			}
+			s.check(name + ": relay index re-used after its owner was removed")
+			// deleting the removed owner again must not release the index now held by hb
+			pre = s.mo.collect()
+			s.f.closeTunnel(ha)
+			post = s.check(name + ": removed relay owner deleted again")
+			s.mo.diffDelete(pre, post, "closeTunnel (again)", ha)
+			ev(name + " reuse")
+			s.done()
+		}
+	}
+
+	// S4: tunnels sharing a remote index, and repeated deletes after the local index was re-used.
+	for _, k := range kvals {
+		for how := 0; how < 3; how++ {
+			name := fmt.Sprintf("S4 shared-remote-index k=%#x delete=%d", k, how)
+			s := c29NewScript(t, r, name, []uint32{k, k ^ 0x10, k ^ 0x20}, 5, 3, 3, false)
+			pa, pb, pc := s.pups[0], s.pups[1], s.pups[2]
+			ha := s.pupInitRetry(pa, 7)
+			hb := s.pupInitRetry(pb, 7) // same remote index: RemoteIndexes[7] now points to hb
+			if ha == nil || hb == nil {
+				r.Inconclusive(name + ": could not establish two tunnels")
+				s.done()
+				continue
+			}
+			del := func(h *HostInfo) string {
+				switch how {
+				case 0:
+					s.f.closeTunnel(h)
+					return "closeTunnel"
+				case 1:
+					s.f.hostMap.DeleteHostInfo(h)
+					return "HostMap.DeleteHostInfo"
+				default:
+					s.f.closeTunnel(h)
+					s.hsm.DeleteHostInfo(h) // the two steps of the recv_error teardown for this very tunnel
+					return "closeTunnel + pending cleanup"
+				}
+			}
+			pre := s.check(name + ": two tunnels share remote index 7")
+			op := del(ha)
+			post := s.check(name + ": older tunnel deleted")
+			s.mo.diffDelete(pre, post, op, ha)
+			if post.remote[7] == hb {
+				r.Count("remote_index_entry_survived_foreign_delete", 1)
+			}
+			ev(name + " foreign-delete")
+			// fill the index space again, then delete the removed tunnel once more
+			hc := s.pupInitRetry(pc, 8)
+			hd := s.pupInitRetry(pa, 9)
+			_ = hc
+			_ = hd
+			pre = s.check(name + ": index space refilled")
+			op = del(ha)
+			post = s.check(name + ": removed tunnel deleted again")
+			s.mo.diffDelete(pre, post, op+" (again)", ha)
+			ev(name + " delete-again")
+			pre = post
+			op = del(hb)
+			post = s.check(name + ": owner of the remote index entry deleted")
+			s.mo.diffDelete(pre, post, op, hb)
+			ev(name + " owner-delete")
+			s.done()
+		}
+	}
 }
